@@ -3375,6 +3375,22 @@ impl<Front: SocketHandler> ConnectionH2<Front> {
                     block.push_left(shifted as u32);
                 }
             }
+            // A write may stop inside an owned store (a 9-byte frame header
+            // rustls had room for 6 bytes of): `consume` keeps it as
+            // `Alloc(data, index)`. kawa 0.6.8 finishes such a store with
+            // `amount - data.len() + index`: when the write that completes it
+            // is shorter than the whole store the subtraction underflows
+            // before the index is added, a panic wherever overflow checks are
+            // on. Re-own the unwritten tail so that its index is 0 again.
+            let unwritten_tail = match kawa.out.front() {
+                Some(kawa::OutBlock::Store(kawa::Store::Alloc(data, index))) if *index > 0 => {
+                    Some(kawa::Store::from_slice(&data[*index as usize..]))
+                }
+                _ => None,
+            };
+            if let (Some(tail), Some(front)) = (unwritten_tail, kawa.out.front_mut()) {
+                *front = kawa::OutBlock::Store(tail);
+            }
             position.count_bytes_out_counter(size);
             position.count_bytes_out(metrics, size);
             if let Some(counter) = bytes_written.as_deref_mut() {
